@@ -163,6 +163,11 @@ class Schema:
                     o = it.ev(e['obj'], env, members)
                 except Unsupported:
                     o = None
+            xh = getattr(S, 'extra_hook', None)
+            if xh is not None:
+                r_ = xh(M, e, a, o)
+                if r_ is not None:
+                    return r_
             if isinstance(o, Vec):
                 if nm in ('emplace_back', 'push_back'):
                     o.v.append(a[0])
@@ -251,6 +256,10 @@ class Schema:
                         n.length = len(n.val)
                         n.own = M.ledger.alloc('copied string %r' % n.val) if len(a) >= 2 else None
                     return n
+                if nm == 'setRaw':
+                    n.kind, n.val, n.own, n.block = 'raw', dm.skey(a[0]), None, None
+                    n.length = len(n.val)
+                    return 0
                 if nm == 'FindMember':
                     return M.call('findMemberImpl', n, a[-1])
             return S.node_hook(M, e, a, env, members, it, o)
@@ -304,3 +313,68 @@ class Schema:
         if k == 'str':
             return bool(self.ev(M, 'String', ('sv', t.val)))
         raise ValueError(k)
+
+
+class GrowStack:
+    """internal::Stack used as a node stack: a block that is reallocated (moved, the old one released) when it is full"""
+    def __init__(self, ledger, cap_nodes=16):
+        self.ledger = ledger
+        self.block = Block(ledger, cap_nodes, 1)
+        self.top = 0
+
+    def push(self, n):
+        if self.top + n > self.block.cap:
+            nb = Block(self.ledger, max(self.block.cap * 2, self.top + n), 1)
+            for j in range(self.top):
+                nb.slots[j].copy_bits(self.block.slots[j])
+            self.ledger.free(self.block.rid, 'node stack')
+            self.block.freed = True
+            self.block = nb
+        p = Ptr(self.block, self.top, 1)
+        self.top += n
+        return p
+
+
+class Lazy(Schema):
+    """LazySAXHandler driven as parseLazyImpl drives it: one level, members / elements as raw values"""
+    def lazy_build(self, M, t):
+        st = GrowStack(M.ledger)
+        self.mem = {'stack_': st, 'alloc_': 'ALLOC'}
+        self.extra_hook = self.stack_hook
+        if t.kind == 'obj':
+            self.ev(M, 'StartObject')
+            for k, v in t.kids:
+                self.ev(M, 'Key', dm.CharPtr(k, dm.new_addr()), len(k), 0)
+                self.ev(M, 'Raw', dm.CharPtr(tstr(v), dm.new_addr()), len(tstr(v)))
+            self.ev(M, 'EndObject', len(t.kids))
+        else:
+            self.ev(M, 'StartArray')
+            for v in t.kids:
+                self.ev(M, 'Raw', dm.CharPtr(tstr(v), dm.new_addr()), len(tstr(v)))
+            self.ev(M, 'EndArray', len(t.kids))
+        return st
+
+    def stack_hook(self, M, e, a, o):
+        nm = e.get('cname') or ''
+        if isinstance(o, GrowStack):
+            unit = 2 if 'Member' in (e.get('cdiag') or '') else 1
+            if nm in ('PushSize', 'PushSizeUnsafe'):
+                return o.push(a[0] * unit)
+            if nm == 'Begin':
+                return Ptr(o.block, 0, 1)
+            if nm in ('Top',):
+                if o.top < unit:
+                    raise UndefinedBehaviour('Top() of an empty node stack')
+                return Ptr(o.block, o.top - unit, 1)
+            if nm == 'End':
+                return Ptr(o.block, o.top, 1)
+            if nm == 'Pop':
+                k = a[0] * unit
+                if k > o.top:
+                    raise UndefinedBehaviour('Pop(%d) from a stack of %d nodes' % (k, o.top))
+                o.top -= k
+                return 0
+            if nm == 'Size':
+                return 16 * o.top
+            raise Unsupported('node stack method %s' % nm)
+        return None
